@@ -329,9 +329,7 @@ err_t btokBAuthCTStep2(octet out[], const bake_cert* certt, void* state)
 	qrTo(out + no, ecY(Vct, n), s->ec->f, stack);
 	memSetZero(hdr, 16);
 	qrTo((octet*)K, ecX(K), s->ec->f, stack);
-	beltKWPWrap(out + 2 * no, s->R, no / 2, hdr, (octet*)K, 32);
-	// все нормально
-	return ERR_OK;
+	return beltKWPWrap(out + 2 * no, s->R, no / 2, hdr, (octet*)K, 32);
 }
 
 static size_t btokBAuthCTStep2_deep(size_t n, size_t f_deep, size_t ec_d,
@@ -476,7 +474,7 @@ err_t btokBAuthCTStep4(octet out[], const octet in[], void* state)
 	beltHashStart(stack);
 	beltHashStepH(s->R, no / 2, stack);
 	if (s->settings->kcb)
-  	beltHashStepH(in + 8, no / 2, stack);
+  	beltHashStepH(in + 8, 16, stack);
 	if (s->settings->helloa)
 		beltHashStepH(s->settings->helloa, s->settings->helloa_len, stack);
 	if (s->settings->hellob)
